@@ -85,8 +85,8 @@ def unpruned_evaluations(n, msl):
     return total
 
 
-def check_against_oracle(costfn, n, msl, penalty, scores, cpts, assert_optimal=True, scale=1.0):
-    tol = 1e-9 * (1.0 + scale)
+def check_against_oracle(costfn, n, msl, penalty, scores, cpts, assert_optimal=True, scale=1.0, rel=1e-9):
+    tol = rel * (1.0 + scale)
     cpts = [int(c) for c in cpts]
     bounds = [0] + cpts + [n]
     if any(b - a < msl for a, b in zip(bounds[:-1], bounds[1:])) or cpts != sorted(set(cpts)):
@@ -250,7 +250,10 @@ def check_builtin(case):
                 break
     if not split_ok:
         classes.append("precondition_fails")
-    check_against_oracle(costfn, n, msl, penalty, scores, cpts, assert_optimal=split_ok, scale=scale)
+    # the reference recursion consumes the very same cost values (same library routine; per-interval values do not
+    # depend on the batch), so only the order of at most n additions at the magnitude of the scores may differ
+    check_against_oracle(costfn, n, msl, penalty, scores, cpts, assert_optimal=split_ok, scale=scale,
+                         rel=64 * (n + 1) * np.finfo(float).eps)
     if cpts:
         classes.append("has_changepoint")
     if n == 2 * msl:
@@ -296,6 +299,65 @@ def small_l2_cases(tier):
                     yield {"n": n, "msl": msl, "family": "l2int", "k": k, "x": list(x), "int_output": False}
 
 
+# ------------------------------------------------------------------ long series
+
+
+def long_cells(tier):
+    """Series of 400..12000 samples (thorough: up to 33000) with many changes: thousands of pruning decisions, long
+    accumulations. The data are a deterministic function of the cell (numpy PCG64 seeded with the cell's seed, which the
+    case stores): unit noise plus level / scale shifts every 20-200 samples."""
+    cells = [(600, 1, "L2Cost", 1, 1.0), (1500, 2, "L2Cost", 5, 1.0), (1100, 1, "GaussianVarCost", 2, 1.0),
+             (3000, 1, "L2Cost", 3, 0.5), (900, 3, "GaussianVarCost", 4, 2.0), (400, 1, "L1Cost", 2, 1.0),
+             (12000, 1, "L2Cost", 2, 1.0), (8000, 2, "GaussianVarCost", 10, 1.0)]
+    if tier != "quick":
+        cells += [(30000, 1, "L2Cost", 2, 1.0), (16000, 2, "GaussianVarCost", 10, 1.0), (600, 2, "GaussianCovCost", 5, 1.0),
+                  (20000, 1, "L2Cost", 1, 0.1), (10000, 4, "L2Cost", 25, 3.0), (16500, 1, "GaussianVarCost", 2, 0.3),
+                  (33000, 2, "L2Cost", 7, 1.0), (800, 1, "L1Cost", 1, 0.5)]
+    for i, (n, p, cost, msl, scale) in enumerate(cells):
+        yield {"n": n, "p": p, "cost": cost, "msl": msl, "penalty_scale": scale, "seed": 2000 + i}
+
+
+def check_long(case):
+    from skchange.change_detectors import PELT
+
+    n, p, msl = case["n"], case["p"], case["msl"]
+    rng = np.random.Generator(np.random.PCG64(case["seed"]))
+    X = rng.normal(size=(n, p))
+    t = 0
+    while t < n:
+        seg = int(rng.integers(20, 200))
+        X[t:t + seg] = X[t:t + seg] * float(rng.choice([1.0, 1.0, 0.5, 2.0])) + rng.choice([0.0, 1.0, -1.5, 3.0], size=p)
+        t += seg
+    with sut("PELT.fit/predict (long series)"):
+        det = PELT(make_cost(case["cost"]), case["penalty_scale"], msl).fit(X)
+        cpts = [int(c) for c in det.predict(X)["ilocs"].tolist()]
+        scores = det.transform_scores(X).to_numpy()
+        penalty = float(det.penalty_)
+    fresh = make_cost(case["cost"]).fit(X)
+    F = np.full(n + 1, np.inf)
+    F[0] = -penalty
+    big = 0.0
+    for e in range(msl, n + 1):
+        starts = np.concatenate(([0], np.arange(msl, e - msl + 1)))
+        c = np.asarray(fresh.evaluate(np.column_stack((starts, np.full(starts.size, e))))).sum(axis=1)
+        big = max(big, float(np.abs(c).max()))
+        F[e] = np.min(F[starts] + c + penalty)
+    tol = 64 * (n + 1) * np.finfo(float).eps * (1.0 + big + penalty * (len(cpts) + 1))
+    bounds = [0] + cpts + [n]
+    if any(b - a < msl for a, b in zip(bounds[:-1], bounds[1:])) or cpts != sorted(set(cpts)):
+        raise Violation("changepoints are not strictly increasing with all segments >= min_segment_length", msl=msl, n=n)
+    seg = float(np.asarray(fresh.evaluate(np.column_stack((bounds[:-1], bounds[1:])))).sum()) + penalty * len(cpts)
+    if abs(seg - scores[-1]) > tol:
+        raise Violation("final score differs from the penalised cost of the returned segmentation", final_score=float(scores[-1]),
+                        returned_segmentation_cost=seg, n_changepoints=len(cpts))
+    bad = np.flatnonzero(np.abs(scores[msl - 1:] - F[msl:]) > tol)
+    if bad.size:
+        e = int(bad[0]) + msl
+        raise Violation("score of a prefix differs from the optimal penalised cost of that prefix", prefix_length=e,
+                        reported=float(scores[e - 1]), optimum=float(F[e]), n_prefixes_off=int(bad.size))
+    return {"nontrivial": len(cpts) >= 3, "classes": [f"cost={case['cost']}", f"n>={n // 1000}000", f"changepoints>={min(len(cpts) // 10 * 10, 50)}"]}
+
+
 FACETS = [
     Facet(
         name="exhaustive_ternary_l2", kind="enumerate", enumerate=small_l2_cases, check=check_table, exhaustive=True,
@@ -321,5 +383,12 @@ FACETS = [
               "earlier predict on the caller's array / frame, then refilled in place); "
               "non-trivial = >=1 changepoint AND the evaluated cost table satisfies the split inequality"),
         n_quick=480, n_thorough=8000, shards_quick=8, shards_thorough=16,
+    ),
+    Facet(
+        name="long_series", kind="enumerate", enumerate=long_cells, check=check_long, exhaustive=True, time_limit=600,
+        rule=("PELT on series of 400..12000 samples (thorough: up to 33000; p 1..4; L2 / GaussianVar / GaussianCov / user L1 costs; msl 1..25) with a "
+              "level or scale shift every 20-200 samples (seeded noise): every prefix score compared with the un-pruned recursion over the "
+              "same cost values at 64 (n+1) eps relative; 8 cells (thorough: 16), non-trivial = >= 3 changepoints"),
+        shards_quick=8, shards_thorough=16, max_samples=1,
     ),
 ]
